@@ -420,7 +420,38 @@ def op_flip_compare(tree):
         yield f"line {sites[k].lineno}", t
 
 
+def op_triple_intercept_step(tree):
+    """multiply the returned intercept step by 3 (longer than 2 / curvature for the quadratic datafits)"""
+    def pred(n):
+        return isinstance(n, ast.FunctionDef) and n.name == "intercept_update_step"
+    sites = _sites(tree, pred)
+    for k in range(len(sites)):
+        t = copy.deepcopy(tree)
+        fn = _sites(t, pred)[k]
+        rets = [r for r in ast.walk(fn) if isinstance(r, ast.Return) and r.value is not None]
+        if not rets:
+            continue
+        rets[-1].value = ast.BinOp(ast.Constant(3.0), ast.Mult(), rets[-1].value)
+        yield f"{sites[k].name} line {sites[k].lineno}", t
+
+
+def op_relax_target_guard(tree):
+    """`y <= 0` -> `y < 0` in the raising test of a datafit initialiser"""
+    def pred(n):
+        return isinstance(n, ast.Compare) and len(n.ops) == 1 and isinstance(n.ops[0], ast.LtE) \
+            and isinstance(n.left, ast.Name) and n.left.id == "y"
+    sites = _sites(tree, pred)
+    for k in range(len(sites)):
+        t = copy.deepcopy(tree)
+        c = _sites(t, pred)[k]
+        c.ops = [ast.Lt()]
+        yield f"line {sites[k].lineno}", t
+
+
 OPERATORS = {
+    "triple the intercept step": (op_triple_intercept_step, ["datafits/single_task.py", "datafits/multi_task.py",
+                                                             "datafits/group.py"], {"C03"}),
+    "relax a target-domain guard": (op_relax_target_guard, ["datafits/single_task.py"], {"C19"}),
     # operator: (generator, files, properties expected to kill it)
     "drop a statement of a CSC kernel": (op_drop_sparse_stmt, ["solvers/anderson_cd.py", "solvers/group_bcd.py",
                                                                "solvers/multitask_bcd.py", "solvers/prox_newton.py",
